@@ -102,6 +102,31 @@ def cmp (a b : Val) : Ordering := cmpN a.norm b.norm
 
 def cmpLe (a b : Val) : Bool := (cmp a b).isLE
 
+/-! ### missing dates
+
+`pd.NaT` is an instance of `datetime.datetime` (so `cmp` ranks it with the datetimes, `_sort.py` type test) and all its native
+comparisons are False, exactly as NaN among the floats; `np.datetime64('NaT')` is turned into `pd.NaT` by `as_primitive`
+(`dt`).  `cmp` gives it the place NaN has among the floats: equal to itself, above every other datetime
+(`_sort.py`: `xnan = isinstance(x, (float, datetime.datetime)) and x != x`).  The shared `Cell` has no constructor for it
+(it is the vocabulary of all twenty models), so the missing date is added here, beside the values: `ValN`.  It is modelled as
+one of the two things compared; a missing date INSIDE a container is outside the model (sampled by the implementation-only
+laws). -/
+inductive ValN where
+  | nat
+  | val (v : Val)
+  deriving Repr, Inhabited
+
+def ValN.rank : ValN → Nat
+  | .nat => 2
+  | .val v => v.rank
+
+/-- the model of `pyg_base.cmp` when one of the two values may be the missing date -/
+def cmpNaT : ValN → ValN → Ordering
+  | .nat, .nat => .eq
+  | .nat, .val v => (compare 2 v.rank).then .gt
+  | .val v, .nat => (compare v.rank 2).then .lt
+  | .val a, .val b => cmp a b
+
 /-- the model of `pyg_base.sort`: a stable sort by `cmp`
 (`sorted(xs, key = Cmp)`; when native `sorted` does not raise and no NaN is present it is
 the same list — assumption "native order agrees with cmp", sampled by correspondence). -/
